@@ -1822,6 +1822,19 @@ func errorTestPolarity(c *core.Ctx, f *ssa.Function, signals func(ssa.Instructio
 	}
 	okEnum := core.EnumPaths(f, 2, 300000, func(pa core.Path) {
 		ret := pa.Returns()
+		// phantom paths: "a sum of byte counts is zero" although one of the reads counted succeeded in full
+		for m := 0; m+1 < len(pa); m++ {
+			if iff, ok := pa[m].Instrs[len(pa[m].Instrs)-1].(*ssa.If); ok {
+				if bo, ok := iff.Cond.(*ssa.BinOp); ok && (bo.Op == token.EQL || bo.Op == token.NEQ) {
+					if z, isK := core.ConstInt(bo.Y); isK && z == 0 {
+						tookZero := (bo.Op == token.EQL && pa[m+1] == pa[m].Succs[0]) || (bo.Op == token.NEQ && pa[m+1] == pa[m].Succs[1])
+						if tookZero && infeasibleZeroCount(pa, m, bo.X) {
+							return
+						}
+					}
+				}
+			}
+		}
 		for k := 0; k+1 < len(pa); k++ {
 			t := tests[pa[k]]
 			if t == nil {
@@ -1833,6 +1846,22 @@ func errorTestPolarity(c *core.Ctx, f *ssa.Function, signals func(ssa.Instructio
 				failed = false
 			}
 			signalled, endOfInput := false, false
+			// "the failed read consumed nothing" may have been established before this test (inside an inlined read helper that
+			// hands the fact on as a nil result): look at the whole path, for the call whose error the tested value is on this path
+			evHere := pa.ResolveAt(k, t.ev)
+			for m := 0; m <= k && m+1 < len(pa); m++ {
+				if iff, ok := pa[m].Instrs[len(pa[m].Instrs)-1].(*ssa.If); ok {
+					if bo, ok := iff.Cond.(*ssa.BinOp); ok && (bo.Op == token.EQL || bo.Op == token.NEQ) {
+						for _, pr := range [][2]ssa.Value{{bo.X, bo.Y}, {bo.Y, bo.X}} {
+							if z, isK := core.ConstInt(pr[1]); isK && z == 0 && (sameCallCount(pa.ResolveAt(m, pr[0]), evHere) || sameCallCount(pr[0], evHere) || sameCallCount(pr[0], t.ev)) {
+								if (bo.Op == token.EQL && pa[m+1] == pa[m].Succs[0]) || (bo.Op == token.NEQ && pa[m+1] == pa[m].Succs[1]) {
+									endOfInput = true
+								}
+							}
+						}
+					}
+				}
+			}
 			for m := k + 1; m < len(pa); m++ {
 				for _, i := range pa[m].Instrs {
 					if signals(i) {
@@ -1845,7 +1874,7 @@ func errorTestPolarity(c *core.Ctx, f *ssa.Function, signals func(ssa.Instructio
 						// paused) exactly between two items, which is not a failure of what was read before
 						if bo, ok := iff.Cond.(*ssa.BinOp); ok && (bo.Op == token.EQL || bo.Op == token.NEQ) {
 							for _, pr := range [][2]ssa.Value{{bo.X, bo.Y}, {bo.Y, bo.X}} {
-								if z, isK := core.ConstInt(pr[1]); isK && z == 0 && sameCallCount(pr[0], t.ev) {
+								if z, isK := core.ConstInt(pr[1]); isK && z == 0 && (sameCallCount(pr[0], t.ev) || sameCallCount(pa.ResolveAt(m, pr[0]), evHere)) {
 									if (bo.Op == token.EQL && pa[m+1] == pa[m].Succs[0]) || (bo.Op == token.NEQ && pa[m+1] == pa[m].Succs[1]) {
 										endOfInput = true
 									}
@@ -2166,4 +2195,68 @@ func sameCellUnchanged(pa core.Path, k int, a, b ssa.Value) bool {
 		}
 	}
 	return true
+}
+
+// infeasibleZeroCount: on path pa, at block k, the branch "v == 0" is taken although v (resolved on the path) is a sum of byte counts
+// one of which belongs to a full read (io.ReadFull / binary.Read) of a buffer of constant, non-zero size that the path has passed
+// successfully — a later stream read follows it on the path. Such a count equals the buffer size; the sum cannot be zero. (Path
+// enumeration knows nothing of arithmetic; without this a helper that reports "bytes consumed so far" as n1+n2+n3 produces the
+// phantom path "the second read failed and nothing was consumed".)
+func infeasibleZeroCount(pa core.Path, k int, v ssa.Value) bool {
+	v = pa.ResolveAt(k, v)
+	var leaves []ssa.Value
+	var walk func(x ssa.Value, d int)
+	walk = func(x ssa.Value, d int) {
+		if b, ok := x.(*ssa.BinOp); ok && b.Op == token.ADD && d > 0 {
+			walk(pa.ResolveAt(k, b.X), d-1)
+			walk(pa.ResolveAt(k, b.Y), d-1)
+			return
+		}
+		leaves = append(leaves, x)
+	}
+	walk(v, 4)
+	if len(leaves) < 2 {
+		return false
+	}
+	for _, l := range leaves {
+		e, ok := l.(*ssa.Extract)
+		if !ok || e.Index != 0 {
+			continue
+		}
+		call, ok := e.Tuple.(*ssa.Call)
+		if !ok || !core.IsCall(call, "io.ReadFull") {
+			continue
+		}
+		// buffer of constant positive size: a slice of a local array
+		sized := false
+		if sl, ok := call.Call.Args[1].(*ssa.Slice); ok {
+			if pt, ok := sl.X.Type().Underlying().(*types.Pointer); ok {
+				if arr, ok := pt.Elem().Underlying().(*types.Array); ok && arr.Len() > 0 {
+					sized = true
+				}
+			}
+		}
+		if !sized {
+			continue
+		}
+		// a later stream read on the path up to k: the call succeeded
+		seen, later := false, false
+		for m := 0; m <= k; m++ {
+			for _, i := range pa[m].Instrs {
+				if i == ssa.Instruction(call) {
+					seen = true
+					continue
+				}
+				if seen {
+					if _, _, isRead := isStreamRead(i); isRead {
+						later = true
+					}
+				}
+			}
+		}
+		if later {
+			return true
+		}
+	}
+	return false
 }
